@@ -210,11 +210,18 @@ MustIdx(c, gone) == SelectSeq(CommentIdx(c.T), LAMBDA i : i \notin gone)
 (* of its own still has one, and a comment of the window that shared its     *)
 (* line with code shares its new line only with code it shared a line with   *)
 (* before or with the new code (it did not move into another statement)       *)
-PreMates(c, i)  == {c.T[q] : q \in {z \in 1..N(c) : c.ts[z] <= c.ts[i] /\ c.ts[i] <= c.te[z] /\ ~IsTrivia(c.T[z])}}
-PostMates(c, j) == {c.U[q] : q \in {z \in 1..Len(c.U) : c.us[z] <= c.us[j] /\ c.us[j] <= c.ue[z] /\ ~IsTrivia(c.U[z])}}
+(* pre: the code of the comment's logical line (the statement text between two *)
+(* NEWLINE tokens); post: the code on the comment's physical line that is not  *)
+(* an own token of the container (field syntax pfst has to write: `->`, `**`)  *)
+PreMates(c, i)  == LET a == SetMax({0} \cup {z \in 1..(i - 1) : Typ(c.T[z]) = "NEWLINE"})
+                       b == SetMin({N(c)} \cup {z \in (i + 1)..N(c) : Typ(c.T[z]) = "NEWLINE"})
+                   IN {c.T[q] : q \in {z \in (a + 1)..b : ~IsTrivia(c.T[z])}}
+PostMates(c, j) == {c.U[q] : q \in {z \in 1..Len(c.U) : /\ c.us[z] <= c.us[j] /\ c.us[j] <= c.ue[z]
+                                                         /\ ~IsTrivia(c.U[z]) /\ z \notin c.uown}}
 Glue == {",", ";", "(", ")"}
 SameCompany(c, i, j) ==
-  \A t \in PostMates(c, j) : t \in PreMates(c, i) \/ t \in RangeOf(c.newk) \/ (Typ(t) = "OP" /\ Str(t) \in Glue)
+  LET pm == PreMates(c, i) IN
+  \A t \in PostMates(c, j) : t \in pm \/ t \in RangeOf(c.newk) \/ (Typ(t) = "OP" /\ Str(t) \in Glue)
 Matches(c, w, i, j) ==
   /\ c.T[i] = c.U[j]
   /\ c.tf[i] = 1 => c.uf[j] = 1
@@ -241,8 +248,13 @@ TouchHi0(c, w) == LET q == w.hi + 1 IN
   IF q > N(c) \/ Typ(c.T[q]) = "ENDMARKER" THEN Len(c.L)
   ELSE IF c.tf[q] = 1 /\ c.stmt THEN c.ts[q] - 1 ELSE c.ts[q]
    \* a new statement gets lines of its own; a new expression element may share the line of its neighbour
-TouchLo(c, w) == IF OneLineBlock(c) THEN TMin(TouchLo0(c, w), c.ts[c.E[1].lo]) ELSE TouchLo0(c, w)
-TouchHi(c, w) == IF OneLineBlock(c) THEN TMax(TouchHi0(c, w), c.te[c.E[NumE(c)].hi]) ELSE TouchHi0(c, w)
+(* the optional delimiters / singleton comma of a Tuple or MatchSequence sit on *)
+(* the first and last line of the container                                    *)
+DelimLines(c) == ~c.stmt /\ SeqDelims(c) # {} /\ c.cLo <= c.cHi
+TouchLo(c, w) == IF OneLineBlock(c) THEN TMin(TouchLo0(c, w), c.ts[c.E[1].lo])
+                 ELSE IF DelimLines(c) THEN TMin(TouchLo0(c, w), c.ts[c.cLo]) ELSE TouchLo0(c, w)
+TouchHi(c, w) == IF OneLineBlock(c) THEN TMax(TouchHi0(c, w), c.te[c.E[NumE(c)].hi])
+                 ELSE IF DelimLines(c) THEN TMax(TouchHi0(c, w), c.te[c.cHi]) ELSE TouchHi0(c, w)
 
 (* la, lb: first / last physical line of the touched range                   *)
 LinesPre(c, la) == Sub(c.L, 1, la - 1)
@@ -292,8 +304,8 @@ TokenClauses(c) ==
 InsertNeighbourSel(c) ==
   IF HasElem(c) \/ Whole(c) \/ c.stmt \/ c.form # "slice" THEN {}
   ELSE IF c.ns < NumE(c) THEN LeadSel(c, W(c), c.E[c.ns + 1].lo)
-  ELSE IF c.ns >= 1 THEN TrailSel(c, W(c), c.E[c.ns].hi, FALSE)
-  ELSE {}
+  ELSE LET pk == PrevKids(c) IN
+       IF pk = {} THEN {} ELSE TrailSel(c, W(c), SetMax({c.kids[k].hi : k \in pk}), FALSE)
 LostClass(c) ==
   IF ~FactsOk(c) \/ ~WOk(c) THEN ""
   ELSE LET lost == Lost(c, W(c)) IN
